@@ -432,3 +432,43 @@ pub fn gen_unencodable_header(g: &mut Gen, ctx: &mut Ctx) -> (Header, Header) {
     }
     (bad, sibling)
 }
+
+
+/// An unprotected header for hand-assembled carriers: empty half of the time; otherwise an
+/// algorithm (the whole IANA table, the common signature / MAC / key-wrap / direct ones
+/// over-represented, private-use, text), key id, IV or Partial IV.  None of it takes part in the
+/// to-be-signed / MACed / additional-data structures.
+pub fn gen_unprotected(g: &mut Gen) -> Header {
+    use coset::{iana, Algorithm};
+    let mut h = Header::default();
+    if g.bool() {
+        return h;
+    }
+    if g.ratio(3, 4) {
+        h.alg = Some(match g.weighted(&[3, 4, 1, 1]) {
+            0 => {
+                let t = crate::registry::ALGORITHM;
+                match <iana::Algorithm as iana::EnumI64>::from_i64(t[g.below(t.len())].1) {
+                    Some(a) => Algorithm::Assigned(a),
+                    None => Algorithm::PrivateUse(-70000),
+                }
+            }
+            1 => Algorithm::Assigned(*g.pick(&[
+                iana::Algorithm::Direct, iana::Algorithm::A128KW, iana::Algorithm::A192KW, iana::Algorithm::A256KW, iana::Algorithm::ES256,
+                iana::Algorithm::EdDSA, iana::Algorithm::HMAC_256_64, iana::Algorithm::HMAC_256_256, iana::Algorithm::A128GCM, iana::Algorithm::Direct_HKDF_SHA_256,
+                iana::Algorithm::ECDH_ES_A128KW, iana::Algorithm::Reserved,
+            ])),
+            2 => Algorithm::PrivateUse(-65537 - g.range_i64(0, 1000)),
+            _ => Algorithm::Text(g.text()),
+        });
+    }
+    if g.bool() {
+        h.key_id = g.nonempty_bytes();
+    }
+    match g.below(4) {
+        0 => h.iv = g.nonempty_bytes(),
+        1 => h.partial_iv = g.nonempty_bytes(),
+        _ => {}
+    }
+    h
+}
